@@ -230,6 +230,20 @@ pub struct Stats {
     pub sigs: BTreeSet<u64>,
     pub nontrivial_sigs: BTreeSet<u64>,
     pub progress_runs: u64,
+    /// Order-independent sum of per-run digests (relayed bytes, counters, violations): the determinism self-check.
+    #[serde(default)]
+    pub digest: u64,
+}
+
+pub fn fnv(mut h: u64, bytes: &[u8]) -> u64 {
+    if h == 0 {
+        h = 0xcbf2_9ce4_8422_2325;
+    }
+    for b in bytes {
+        h ^= *b as u64;
+        h = h.wrapping_mul(0x100_0000_01b3);
+    }
+    h
 }
 
 impl Stats {
@@ -251,6 +265,7 @@ impl Stats {
         self.messages += o.messages;
         self.bytes += o.bytes;
         self.progress_runs += o.progress_runs;
+        self.digest = self.digest.wrapping_add(o.digest);
         for (k, v) in &o.ops {
             *self.ops.entry(k.clone()).or_insert(0) += v;
         }
@@ -1339,6 +1354,7 @@ impl Sim {
         for (ce, ch, bytes) in sent {
             self.stats.messages += 1;
             self.stats.bytes += bytes.len() as u64;
+            self.stats.digest = fnv(fnv(self.stats.digest, &[ch as u8, 0xA5]), &bytes);
             let Some(c) = self.clients.iter().position(|c| c.sess.as_ref().and_then(|s| s.ce) == Some(ce)) else {
                 self.violate(
                     "C09",
@@ -1411,6 +1427,7 @@ impl Sim {
             let id = self.msg_id;
             self.stats.messages += 1;
             self.stats.bytes += bytes.len() as u64;
+            self.stats.digest = fnv(fnv(self.stats.digest, &[ch as u8, c as u8, 0x5A]), &bytes);
             if ch < self.clients[c].last_c2s.len() {
                 self.clients[c].last_c2s[ch] = Some(bytes.clone());
             }
